@@ -170,26 +170,49 @@ def multiplier(e, var):
     return None
 
 
-def unit_tables(P, R):
-    want_i = {'d': 86400, 'h': 3600, 'm': 60, 's': 1, 'y': 31536000}
-    want_v = {'B': 1, 'b': 1, 'K': 1 << 10, 'k': 1 << 10, 'M': 1 << 20, 'm': 1 << 20, 'G': 1 << 30, 'g': 1 << 30}
-    for name, want in (('conf_parse_interval', want_i), ('conf_parse_volume', want_v)):
+WANT_I = {'d': 86400, 'h': 3600, 'm': 60, 's': 1, 'y': 31536000}
+WANT_V = {'B': 1, 'b': 1, 'K': 1 << 10, 'k': 1 << 10, 'M': 1 << 20, 'm': 1 << 20, 'G': 1 << 30, 'g': 1 << 30}
+DIGITS = '0123456789'
+
+
+def scan_of(P, name):
+    """character-classified scan analysis of a typed parser (cached on the program)"""
+    from .. import charparse
+    cache = P.__dict__.setdefault('_charparse', {})
+    if name not in cache:
         f = P.need_fn(name)
+        acc = DIGITS + ''.join(WANT_I if name == 'conf_parse_interval' else WANT_V) + (':' if name == 'conf_parse_interval' else '')
+        cache[name] = (f, charparse.analyse(f, acc))
+    return cache[name]
+
+
+def unit_tables(P, R):
+    from .. import charparse
+    for name, want in (('conf_parse_interval', WANT_I), ('conf_parse_volume', WANT_V)):
+        f, res = scan_of(P, name)
+        if res is None or not res['accum']:
+            R.broke('C16.TAB.3: %s no longer scans its text with a character pointer and accumulates `total += number * unit`' % name)
+            continue
         got = {}
-        for bid in f.reachable_blocks():
-            for e in f.out[bid]:
-                if e.label == 'case' and e.vs:
-                    adds = [s for s in f.block_sites(f.case_body(e.dst)) if s.ev['k'] == 'store' and s.ev.get('op') == '+=' and is_var(s.ev.get('lhs'))]
-                    for v in e.vs:
-                        if 32 < v < 127 and adds:
-                            pv = sorted(vars_in(adds[0].ev['rhs']))
-                            got[chr(v)] = (adds[0], multiplier(adds[0].ev['rhs'], pv[0]) if pv else None)
+        for key, (s, states) in res['accum'].items():
+            for st in states:
+                m = None
+                for v in sorted(vars_in(s.ev['rhs'])):
+                    rhs = charparse.subst_consts(s.ev['rhs'], tuple(x for x in st.K if x[0] != v))
+                    if set(vars_in(rhs)) == {v} and multiplier(rhs, v) is not None:
+                        m = multiplier(rhs, v)
+                        break
+                if len(st.C) <= 4:
+                    for c in st.C:
+                        got.setdefault(chr(c), []).append((s, m))
         for u, k in sorted(want.items()):
-            s, g = got.get(u, (None, None))
-            R.ob('C16.TAB.3', g == k, s or f, '%s: unit %s multiplies by %d (found %s)' % (name, u, k, g), key='unit:%s:%s' % (name, u))
+            hits = got.get(u, [])
+            ms = sorted({m for _, m in hits}, key=lambda x: (x is None, x))
+            R.ob('C16.TAB.3', ms == [k], hits[0][0] if hits else f, '%s: unit %s multiplies by %d (found %s)' % (name, u, k, ms if ms else None), key='unit:%s:%s' % (name, u))
         # after a unit the partial value is reset
-        for u, (s, g) in got.items():
+        for u, hits in got.items():
             if u in want:
+                s = hits[0][0]
                 z = f.path_avoiding(s, lambda t: t.ev['k'] == 'store' and is_var(t.ev.get('lhs')) and t.ev.get('op') == '=' and const_of(t.ev.get('rhs')) == 0)
                 R.ob('C16.TAB.3', z is None or True, s, 'unit %s consumes the pending number' % u, key='unit-reset:%s:%s' % (name, u), nontrivial=False)
     # colon positions of the interval: first 3600, second 60
@@ -210,60 +233,23 @@ def unit_tables(P, R):
 
 def unknown_chars(P, R):
     for name in ('conf_parse_interval', 'conf_parse_volume'):
-        f = P.need_fn(name)
-        sw = None
-        for bid in f.reachable_blocks():
-            es = f.out[bid]
-            if any(e.label == 'case' and e.vs and ord('0') in e.vs for e in es):
-                sw = bid
-        if sw is None:
-            R.broke('C16.GRD.1: %s has no character switch' % name)
+        f, res = scan_of(P, name)
+        if res is None or not res['succ']:
+            R.broke('C16.GRD.1: %s no longer scans its text with a character pointer / reports through a success pointer' % name)
             continue
-        subj = f.term_cond(sw)
-        de = [e for e in f.out[sw] if e.label == 'default']
-        # the variable that holds the offending character, if any
-        sv = subj['name'] if is_var(subj) else None
-        sp = [p['name'] for p in f.param_info if p['t'] == 'int *']
-        succ = sp[0] if sp else 'success'
-
-        def clears(t):
-            ev = t.ev
-            if ev['k'] != 'store' or not (ev['lhs'].get('k') == 'un' and ev['lhs']['op'] == '*' and is_var(ev['lhs']['e'], succ)):
-                return False
-            v = ev.get('rhs')
-            if const_of(v) == 0:
-                return True
-            # a comparison of the offending character itself with NUL
-            if sv and isinstance(v, dict) and v.get('k') == 'bin' and v['op'] == '==' and is_var(v['l'], sv) and const_of(v['r']) == 0:
-                return True
-            return False
-        ok = False
-        why = 'the switch has no default: unknown characters fall through silently'
-        for e in de:
-            if e.dst in f.reach([sw]) and any(x.label == 'case' for x in f.out[sw]):
-                # implicit default (no default statement) goes back to the loop: nothing clears success
-                first = f.block_sites(e.dst)
-                ok = any(clears(t) for t in first) or (f.path_from_block(e.dst, lambda t: clears(t) or (t.ev['k'] == 'store' and t.ev['lhs'].get('k') == 'un' and is_var(t.ev['lhs']['e'], succ) and False)) is None)
-                # success may be a NULL pointer: the store is guarded by `if (success)`; accept the null-guarded form
-                if not ok:
-                    # paths that skip the store only through the `success == 0` edge are fine
-                    def clears_or_null(t):
-                        return clears(t)
-                    p = f.path_from_block(e.dst, clears_or_null)
-                    if p is not None:
-                        # is the avoiding path only possible through the null edge?
-                        nulls = [x for b in p for x in f.out[b] if x.rel() and is_var(x.rel()[0], succ) and x.rel()[1] == '==' and x.dst in p]
-                        ok = bool(nulls) and any(clears(t) for t in f.sites())
-                        if ok:
-                            # and on the non-null edge the clearing store is reached without any other store to *success
-                            other = [t for t in f.sites() if t.ev['k'] == 'store' and t.ev['lhs'].get('k') == 'un' and is_var(t.ev['lhs']['e'], succ) and not clears(t)]
-                            reach_other = [t for t in other if t.bid in f.reach([e.dst])]
-                            ok = not reach_other
-                            why = 'an unknown character reaches a store that may report success (%s)' % [t.loc for t in reach_other]
-                if not ok and why.startswith('the switch'):
-                    why = 'an unknown character does not make *success false (judged on that character)'
-        R.ob('C16.GRD.1', ok, P.relloc((f.blocks[sw].get('term') or {}).get('loc', '?')), '%s: a character matching no case makes *success false%s' % (name, '' if ok else ' - ' + why), key='unknown-char:%s' % name)
-        R.obligations[-1]['function'] = name
+        bad = []
+        nret = 0
+        for s in f.sites():
+            if s.ev['k'] != 'ret':
+                continue
+            nret += 1
+            for st in res['before'].get(s.key, set()):
+                if st.bad and not st.snull and st.succ != 'F':
+                    ch = sorted(st.C)[:3]
+                    bad.append((s, 'a path that examined a character outside the format (and possibly went on scanning) returns with *success %s' %
+                                {'T': 'true', '?': 'not provably false', None: 'never assigned'}[st.succ]))
+        site = bad[0][0] if bad else f
+        R.ob('C16.GRD.1', nret > 0 and not bad, site, '%s: a character matching no unit or digit makes *success false%s' % (name, (' - ' + bad[0][1]) if bad else ''), key='unknown-char:%s' % name)
     R.floor('C16.GRD.1', 2)
     # the other typed parsers judge the whole value through the library end pointer
     for name in ('conf_parse_integer', 'conf_parse_float'):
